@@ -462,7 +462,7 @@ def run(rep):
     invs = "\n".join("INVARIANT " + i for i in INVARIANTS)
     files = {"wire_env.json": json.dumps(envdoc)}
     # stage 1
-    r1 = tlc.run("MC_Wire", MC_CFG.format(k=1, s=0, emit="FALSE", invs=invs, **bounds), workers="auto", files=files,
+    r1 = tlc.run("MC_Wire", MC_CFG.format(k=1, s=0, emit="FALSE", invs=invs, **bounds), workers="auto", files=files, heap="4g",
                  env={"WIRE_ENV": "wire_env.json"}, timeout=7200)
     rep.add_tlc(f"MC_Wire {bounds} seeds={len(sd)} invariants={len(INVARIANTS)}", r1)
     if r1.violated:
